@@ -178,6 +178,13 @@ def mk_phi(test, a, b):
     return ("phi", test, a, b)
 
 
+_TREE_TAGS = ("tree_primal", "tree_tangent", "no_change", "unknown_change")
+
+
+def _is_tree_tag(t):
+    return is_t(t, "call") and is_t(t[1], "attr") and t[1][2] in _TREE_TAGS and is_t(t[1][1], "global") and t[1][1][1].split(".")[-1] == "Diff" and len(t[2]) == 1 and not t[3]
+
+
 def _has_star(t):
     return any(is_t(x, "star") for x in t[1])
 
@@ -220,6 +227,11 @@ def mk_proj(base, i: int):
             return mk_elem(base[1][1])
     if is_t(base, "mselem"):
         return ("mselem", base[1], mk_proj(base[2], i))
+    if is_t(base, "elem") and (is_t(base[1], "slice") or is_t(base[1], "tuple") or _is_tree_tag(base[1])):
+        return mk_elem(mk_proj(base[1], i))
+    # Diff.tree_primal / tree_tangent / no_change / unknown_change are tree maps: projections commute with them
+    if is_t(base, "call") and is_t(base[1], "attr") and base[1][2] in _TREE_TAGS and is_t(base[1][1], "global") and base[1][1][1].split(".")[-1] == "Diff" and len(base[2]) == 1 and not base[3]:
+        return ("call", base[1], (mk_proj(base[2][0], i),), ())
     if is_t(base, "treemap"):
         return ("treemap", mk_proj(base[1], i), base[2])
     if is_t(base, "leaf"):
@@ -230,12 +242,16 @@ def mk_proj(base, i: int):
 
 
 def mk_slice(base, lo, hi):
+    if is_t(base, "tuple") and len(base[1]) == 1 and is_t(base[1][0], "star"):
+        return mk_slice(base[1][0][1], lo, hi)
     if (is_t(base, "tuple") or is_t(base, "list")) and not _has_star(base):
         items = base[1]
         try:
             return (base[0], tuple(items[slice(lo, hi)]))
         except Exception:
             pass
+    if is_t(base, "call") and is_t(base[1], "attr") and base[1][2] in _TREE_TAGS and is_t(base[1][1], "global") and base[1][1][1].split(".")[-1] == "Diff" and len(base[2]) == 1 and not base[3]:
+        return ("call", base[1], (mk_slice(base[2][0], lo, hi),), ())
     if is_t(base, "tuple") and isinstance(lo, int) and lo >= 0 and hi is None:
         items = base[1]
         if not any(is_t(x, "star") for x in items[:lo]) and lo <= len(items):
@@ -950,6 +966,15 @@ class _Ctx:
                     r = self.inline(clo, (args if is_static else [obj] + list(args)), kwargs)
                     if r is not None:
                         return r
+        # accessor on a locally constructed repository object: VmapTrace(...).get_retval()
+        if is_t(obj, "ctor") and name.startswith("get_"):
+            cis = ev.prog.class_index.get(obj[1])
+            if cis and name in cis[0].methods and not _is_abstract(cis[0].methods[name]):
+                ci = cis[0]
+                clo = Closure(ci.methods[name], {}, ci.module, ci, f"{ci.name}.{name}")
+                r = self.inline(clo, [obj] + list(args), kwargs)
+                if r is not None:
+                    return r
         # Class.static_method(...)  e.g. MaskTrace.build, Diff.tree_primal, FlagOp.and_
         if is_t(obj, "global"):
             short = obj[1].split(".")[-1]
